@@ -52,13 +52,36 @@ Record based_struct (s a : struct) (f0 : field) (i : intty) (hrest : list field)
   bs_ordered_o : ordered tm (struct_fields_nc s) hrest (own_fields tm s)
 }.
 
-Definition struct_ok (s : struct) : Prop := flat_struct s \/ exists a f0 i hrest, based_struct s a f0 i hrest.
+(* a member that certainly occupies at least one byte *)
+Definition pos_member (allfs : list field) (f : field) : Prop :=
+  (exists k i, classify tm allfs f = Some k /\ int_kind k = Some i /\ 0 < it_size i) \/
+  (exists t, classify tm allfs f = Some (MkNamed t)).
+
+(* a concrete struct with an abstract parent that has NO @size member (NEM transactions): the parent's _deserialize reads its members
+   and hands over the window [consumed, len(buffer)) *)
+Record based_nosize_struct (s a : struct) (hfs : list field) : Prop := {
+  bn_lookup : lookup tm (s_name s) = Some (DStruct s);
+  bn_base : base_struct tm s = Some a;
+  bn_concrete : s_disp s <> SdAbstract;
+  bn_all : struct_fields_nc s = hfs ++ own_fields tm s;
+  bn_parent : struct_fields_nc a = hfs;
+  bn_names : NoDup (map f_name (hfs ++ own_fields tm s));
+  bn_attr_a : struct_size_attr a = None;
+  bn_attr_s : struct_size_attr s = None;
+  bn_no_size_member : forall f, In f (struct_fields_nc s) -> f_name f <> "size";
+  bn_ordered_h : ordered tm (struct_fields_nc s) [] hfs;
+  bn_ordered_o : ordered tm (struct_fields_nc s) hfs (own_fields tm s);
+  bn_fixed : exists f, In f (struct_fields_nc s) /\ pos_member (struct_fields_nc s) f
+}.
+
+Definition struct_ok (s : struct) : Prop :=
+  flat_struct s \/ (exists a f0 i hrest, based_struct s a f0 i hrest) \/ (exists a hfs, based_nosize_struct s a hfs).
 
 (* the members a value must type: all of them, except the leading @size member of a struct with a parent (it is not part of the value) *)
 Definition typed_members (s : struct) : list field :=
-  match base_struct tm s, struct_fields_nc s with
-  | Some _, f0 :: r => r
-  | _, l => l
+  match base_struct tm s with
+  | Some a => match struct_size_attr a, struct_fields_nc s with Some _, f0 :: r => r | _, l => l end
+  | None => struct_fields_nc s
   end.
 
 (* admissible values, by struct nesting depth *)
@@ -287,6 +310,28 @@ Variable k' : nat.
 Hypothesis Hsub : forall t' v' b' rest', adm n t' v' -> enc_t (Rk k') t' v' = Ok b' ->
   dec_t (Rk k') t' (b' ++ rest') = Ok v' /\ size_t (Rk k') t' v' = Ok (Z.of_nat (length b')) /\ (0 < length b')%nat.
 
+(* a member list containing a member of certainly positive width encodes to at least one byte *)
+Lemma ser_fields_pos sx s self total fs f b :
+  In f fs -> pos_member (struct_fields_nc s) f -> member_typed tm (struct_fields_nc s) (adm n) self f ->
+  serialize_fields_go OP tm (Rk k') sx (struct_fields_nc s) total self false fs = Ok b -> (0 < length b)%nat.
+Proof.
+  intros Hin Hkind Htf Henc. set (allfs := struct_fields_nc s) in *.
+  apply in_split in Hin as (l1 & l2 & ->).
+  destruct (member_offset OP tm (Rk k') sx allfs total self l1 f l2 b Henc) as (b1 & bf & b2 & _ & Hf & _ & -> & _).
+  assert (0 < length bf)%nat.
+  { pose proof Htf as Htf'. unfold member_typed in Htf.
+    destruct Hkind as [(kd & i & Hkd & Hik & Hpos)|(t & Hkd)].
+    - destruct (classify_int_kind tm allfs f kd i Hkd Hik) as [Hft Hc].
+      pose proof (member_size_ok OP tm (Rk k') sx allfs (adm n) Hsub self total f bf Htf' Hf) as Hms.
+      rewrite (cond_self_none tm (Rk k') allfs self f Hc) in Hms. cbn [bind] in Hms. unfold member_size in Hms. rewrite Hft in Hms.
+      injection Hms as Hms. lia.
+    - rewrite Hkd in Htf. destruct Htf as (v & Hv & Hnn & Hav).
+      pose proof (classify_named tm allfs f t Hkd) as (Hc & Hb & Hr & Hft).
+      rewrite (conditional_present OP tm (Rk k') sx allfs total self f t v (cond_self_none tm (Rk k') allfs self f Hc) Hb Hft Hr Hv Hnn) in Hf.
+      exact (proj2 (proj2 (Hsub t v bf [] Hav Hf))). }
+  rewrite !app_length. lia.
+Qed.
+
 Lemma struct_rt_flat cls vs s b rest :
   lookup_struct tm cls = Some s -> s_name s = cls -> flat_struct s -> map fst vs = map f_name (settable_fields s) ->
   (forall f, In f (struct_fields_nc s) -> member_typed tm (struct_fields_nc s) (adm n) (VStruct cls vs) f) ->
@@ -417,6 +462,70 @@ Proof.
   rewrite !app_length, Hlenw. unfold w. lia.
 Qed.
 
+Lemma struct_rt_nosize cls vs s a hfs b rest :
+  lookup_struct tm cls = Some s -> s_name s = cls -> based_nosize_struct s a hfs -> map fst vs = map f_name (settable_fields s) ->
+  (forall f, In f (struct_fields_nc s) -> member_typed tm (struct_fields_nc s) (adm n) (VStruct cls vs) f) ->
+  enc OP tm (S (S k')) cls (VStruct cls vs) = Ok b ->
+  dec OP tm (S (S k')) cls (b ++ rest) = Ok (VStruct cls vs) /\ size OP tm (S (S k')) cls (VStruct cls vs) = Ok (Z.of_nat (length b)) /\ (0 < length b)%nat.
+Proof.
+  intros Hls Hname Hb Hvs Hty Henc.
+  destruct Hb as [Hlk Hbase Hconc Hall Hpar Hnd Hattr_a Hattr_s Hnosz Hord_h Hord_o Hfix].
+  rewrite enc_struct_value, Hls, enc_struct_S, Hbase in Henc.
+  set (self := VStruct cls vs) in *. set (allfs := struct_fields_nc s) in *. set (own := own_fields tm s) in *.
+  rewrite Hpar in Henc.
+  destruct (size_struct_with OP tm (Rk k') s self) as [total| |] eqn:Hsz; cbn [bind] in Henc; try discriminate.
+  assert (Hty_h : forall f, In f hfs -> member_typed tm allfs (adm n) self f) by (intros f Hf; apply Hty; rewrite Hall; apply in_or_app; now left).
+  assert (Hty_o : forall f, In f own -> member_typed tm allfs (adm n) self f) by (intros f Hf; apply Hty; rewrite Hall; apply in_or_app; now right).
+  assert (Hnsm_h : forall f, In f hfs -> not_size_member a f) by (intros f _; unfold not_size_member; now rewrite Hattr_a).
+  assert (Hnsm_o : forall f, In f own -> not_size_member s f) by (intros f _; unfold not_size_member; now rewrite Hattr_s).
+  rewrite (ser_fields_first OP tm (Rk k') a allfs total self hfs Hnsm_h) in Henc.
+  rewrite (ser_fields_first OP tm (Rk k') s allfs total self own Hnsm_o) in Henc.
+  destruct (serialize_fields_go OP tm (Rk k') a allfs total self false hfs) as [hb| |] eqn:Hhb; cbn [bind] in Henc; try discriminate.
+  destruct (serialize_fields_go OP tm (Rk k') s allfs total self false own) as [ob| |] eqn:Hob; cbn [bind] in Henc; try discriminate.
+  injection Henc as <-.
+  pose proof (size_fields_ok OP tm (Rk k') a allfs (adm n) Hsub hfs self total hb Hty_h Hhb) as Hsize_h.
+  pose proof (size_fields_ok OP tm (Rk k') s allfs (adm n) Hsub own self total ob Hty_o Hob) as Hsize_o.
+  assert (Htotal : total = Z.of_nat (length (hb ++ ob))).
+  { rewrite size_struct_with_eq, Hbase in Hsz. fold allfs own in Hsz. rewrite Hpar, Hsize_h in Hsz. cbn [bind] in Hsz. rewrite Hsize_o in Hsz. cbn [bind] in Hsz.
+    injection Hsz as <-. rewrite app_length. lia. }
+  destruct (loop_rt OP tm (Rk k') a allfs size_bad_now order_same_now get_bytes_bad_now (adm n) Hsub
+              hfs [] [] self total hb (ob ++ rest) [] Hnsm_h Hord_h
+              ltac:(cbn [app]; rewrite map_app in Hnd; exact (nodup_app_l _ _ Hnd))
+              (fun f Hf => match Hf with end) Hty_h Hhb) as (e1 & Hloop_h & Henv_h & _).
+  cbn [app] in Henv_h.
+  destruct (loop_rt OP tm (Rk k') s allfs size_bad_now order_same_now get_bytes_bad_now (adm n) Hsub
+              own hfs e1 self total ob rest [] Hnsm_o Hord_o Hnd Henv_h Hty_o Hob) as (e2 & Hloop_o & Henv_o & _).
+  assert (Hhas : existsb (fun f => String.eqb (f_name f) "size") hfs = false).
+  { destruct (existsb (fun f => String.eqb (f_name f) "size") hfs) eqn:Hex; [|reflexivity]. exfalso.
+    apply existsb_exists in Hex as (f & Hf & Heq). apply String.eqb_eq in Heq.
+    apply (Hnosz f); [fold allfs; rewrite Hall; apply in_or_app; now left | exact Heq]. }
+  assert (Hheader : dec_header_with OP tm (Rk k') a allfs ((hb ++ ob) ++ rest) =
+                    Ok (e1, Z.of_nat (length ((hb ++ ob) ++ rest)) - Z.of_nat (length (ob ++ rest)), Z.of_nat (length ((hb ++ ob) ++ rest)))).
+  { unfold dec_header_with. rewrite Hpar, <- app_assoc, Hloop_h. cbn [bind fst snd]. now rewrite Hhas. }
+  assert (Hnd_all : NoDup (map f_name allfs)) by (rewrite Hall; exact Hnd).
+  assert (Hcollect : collect s e2 = vs).
+  { apply (collect_ok s cls vs (adm n) e2 (hfs ++ own) Hnd_all Hvs).
+    - intros f Hf. apply settable_sub in Hf. change (In f allfs) in Hf. now rewrite Hall in Hf.
+    - intros f Hf. change (In f allfs). now rewrite Hall.
+    - intros f Hf. apply Hty, settable_sub, Hf.
+    - exact Henv_o. }
+  assert (Hdec : dec OP tm (S (S k')) cls ((hb ++ ob) ++ rest) = Ok self).
+  { rewrite (dec_struct_type (S k') cls s) by (rewrite <- Hname; exact Hlk).
+    rewrite (dec_struct_S_base k' s a _ Hconc Hbase). fold allfs own. rewrite Hheader. cbn [bind].
+    replace (zskipn _ (zfirstn _ ((hb ++ ob) ++ rest))) with (ob ++ rest).
+    2:{ unfold zfirstn at 1. rewrite Z.leb_refl. rewrite <- app_assoc.
+        replace (Z.of_nat (length (hb ++ ob ++ rest)) - Z.of_nat (length (ob ++ rest))) with (Z.of_nat (length hb)) by (rewrite !app_length; lia).
+        now rewrite zskipn_app. }
+    rewrite Hloop_o. cbn [bind fst]. now rewrite Hcollect, Hname. }
+  assert (Hsz' : size OP tm (S (S k')) cls self = Ok (Z.of_nat (length (hb ++ ob)))).
+  { unfold self. rewrite size_struct_value, Hls, size_struct_S. fold self. rewrite Hsz. f_equal. exact Htotal. }
+  repeat split; [exact Hdec | exact Hsz' |].
+  destruct Hfix as (f & Hin & Hpos). fold allfs in Hin, Hpos. rewrite Hall in Hin.
+  rewrite app_length. apply in_app_or in Hin as [Hin|Hin].
+  - pose proof (ser_fields_pos a s self total hfs f hb Hin Hpos (Hty_h f Hin) Hhb). lia.
+  - pose proof (ser_fields_pos s s self total own f ob Hin Hpos (Hty_o f Hin) Hob). lia.
+Qed.
+
 End OneLevel.
 
 Theorem RT_all : forall n, RT n.
@@ -432,11 +541,13 @@ Proof.
       assert (Hsub : forall t' v' b' rest', adm n t' v' -> enc_t (Rk k') t' v' = Ok b' ->
                  dec_t (Rk k') t' (b' ++ rest') = Ok v' /\ size_t (Rk k') t' v' = Ok (Z.of_nat (length b')) /\ (0 < length b')%nat).
       { intros t' v' b' rest' Ha He. cbn [Rk enc_t dec_t size_t] in *. apply (IH k' ltac:(lia) t' v' b' rest' Ha He). }
-      destruct Hok as [Hflat|(a & f0 & i & hrest & Hbased)].
+      destruct Hok as [Hflat|[(a & f0 & i & hrest & Hbased)|(a & hfs & Hbn)]].
       * refine (struct_rt_flat n k' Hsub cls vs s b rest Hls Hname Hflat Hvs _ Henc).
         intros f Hf. apply Hty. unfold typed_members. now rewrite (base_none s (fs_no_base s Hflat)).
       * refine (struct_rt_based n k' Hsub cls vs s a f0 i hrest b rest Hls Hname Hbased Hvs _ Henc).
-        intros f Hf. apply Hty. unfold typed_members. rewrite (bs_base _ _ _ _ _ Hbased), (bs_all _ _ _ _ _ Hbased). exact Hf.
+        intros f Hf. apply Hty. unfold typed_members. rewrite (bs_base _ _ _ _ _ Hbased), (bs_attr_a _ _ _ _ _ Hbased), (bs_all _ _ _ _ _ Hbased). exact Hf.
+      * refine (struct_rt_nosize n k' Hsub cls vs s a hfs b rest Hls Hname Hbn Hvs _ Henc).
+        intros f Hf. apply Hty. unfold typed_members. rewrite (bn_base _ _ _ Hbn), (bn_attr_a _ _ _ Hbn). exact Hf.
 Qed.
 
 End Flat.
